@@ -119,6 +119,10 @@ class PathInterp:
                 return self.ev(n.body) if d else self.ev(n.orelse)
 
             def subscript(self, n):
+                tp = self.__dict__.get('_tuples', {})
+                if isinstance(n.value, ast.Name) and n.value.id in tp and isinstance(n.slice, ast.Constant) and isinstance(n.slice.value, int) \
+                        and -len(tp[n.value.id]) <= n.slice.value < len(tp[n.value.id]):
+                    return tp[n.value.id][n.slice.value]          # an element of a name bound to a literal tuple
                 r = super().subscript(n)
                 # an element stored earlier on this path (a[k] = v with a concrete k) is read back as its value
                 try:
